@@ -264,6 +264,109 @@ fn random_case(g: &mut Gen, cfg: &PicCfg) -> Verdict {
     Verdict::pass_l(w % 16 != 0 || h % 16 != 0 || w < 10 || h < 10, key, vec![mode_label(&ipic.hdr), size_label(&ipic.hdr)])
 }
 
+/// One decoder, several pictures, the size changing at intra pictures - to the transposed size, to
+/// another shape of the same area, to a size drawn afresh - with predicted and disposable pictures
+/// in between: every decoded picture must have the planes of *its own* header's size, whatever
+/// the decoder held before.
+fn sequence_case(g: &mut Gen, cfg: &PicCfg) -> Verdict {
+    let (mode, version) = gen_mode(g, cfg);
+    let mut size = gen_size(g, mode, cfg);
+    let scal = g.bool();
+    let mut st = H263State::new(options_scal(mode, scal));
+    let mut like = None::<Header>;
+    let n = g.range(2, 6) as usize;
+    let mut key = 0u64;
+    let mut changes = 0;
+    let mut trace: Vec<Value> = Vec::new();
+    let mut labels: Labels = Vec::new();
+    for step in 0..n {
+        let pic = match (&like, g.weighted(&[2, 3])) {
+            (Some(l), 1) => {
+                let t = if mode == Mode::Sorenson && g.chance(1, 3) { PicType::D } else { PicType::P };
+                gen_inter_pic(g, cfg, l, t, true)
+            }
+            _ => {
+                if like.is_some() {
+                    let (w, h) = size.dims().unwrap();
+                    let custom = |w: usize, h: usize| -> Option<Size> {
+                        if w == 0 || h == 0 || w > 65535 || h > 65535 {
+                            return None;
+                        }
+                        match mode {
+                            Mode::Sorenson => Some(if w <= 255 && h <= 255 && step % 2 == 0 { Size::Custom8(w as u8, h as u8) } else { Size::Custom16(w as u16, h as u16) }),
+                            Mode::Standard => {
+                                if w % 4 == 0 && h % 4 == 0 && w <= 2048 && h <= 1152 {
+                                    Some(Size::StdCustom(w as u16, h as u16))
+                                } else {
+                                    None
+                                }
+                            }
+                        }
+                    };
+                    let new = match g.below(5) {
+                        0 => custom(h, w),
+                        1 => {
+                            if w % 2 == 0 {
+                                custom(w / 2, h * 2)
+                            } else {
+                                custom(w * 2, (h + 1) / 2)
+                            }
+                        }
+                        2 => custom(w + 16, h.saturating_sub(16).max(1)),
+                        3 => Some(gen_size(g, mode, cfg)),
+                        _ => Some(size),
+                    };
+                    if let Some(s2) = new {
+                        if s2.dims().map(|(a, b)| a * b <= 400_000).unwrap_or(false) {
+                            if s2.dims() != size.dims() {
+                                changes += 1;
+                            }
+                            size = s2;
+                        }
+                    }
+                }
+                let mut i = gen_intra_pic_with(g, cfg, mode, version, size);
+                if like.is_some() && g.chance(1, 3) {
+                    // a predicted picture made of intra macroblocks only: it needs nothing from its
+                    // reference and may therefore have another size; it becomes the new reference
+                    i.hdr.ptype = PicType::P;
+                    if i.hdr.plus == PlusForm::Baseline && matches!(size, Size::StdCustom(..)) {
+                        i.hdr.plus = PlusForm::Full;
+                    }
+                    labels.push("sequence has an all-intra predicted picture (may change the size)");
+                }
+                like = Some(i.hdr.clone());
+                i
+            }
+        };
+        let (w, h) = pic.hdr.dims().unwrap();
+        let bytes = encode_pic(&pic);
+        key = key.rotate_left(5) ^ fnv64(&bytes);
+        if g.want_desc {
+            trace.push(describe_pic(&pic));
+            let t = trace.clone();
+            g.describe(|| json!({"pictures": t}));
+        }
+        let r = match decode_bytes(&mut st, &bytes) {
+            Outcome::Ok => postprocess(&st, w, h),
+            o => Err(format!("valid picture not decoded: {}", o.short())),
+        };
+        if let Err(m) = r {
+            return Verdict::fail(format!("picture {} of the sequence ({:?} {:?} q{}): {}", step, pic.hdr.ptype, pic.hdr.size, pic.hdr.quant, m));
+        }
+    }
+    labels.push(mode_label(like.as_ref().unwrap()));
+    labels.sort();
+    labels.dedup();
+    if changes > 0 {
+        labels.push("size changed within the sequence");
+    }
+    if changes >= 2 {
+        labels.push("size changed twice or more");
+    }
+    Verdict::pass_l(changes > 0, key, labels)
+}
+
 pub fn cfg_for(tier: Tier) -> PicCfg {
     match tier {
         Tier::Quick => PicCfg { max_dim: 320, max_fixed_mbs: 396, budget: 1200, ..PicCfg::quick() },
@@ -283,13 +386,15 @@ pub fn run(ctx: &Ctx) -> i32 {
     let cfg = cfg_for(ctx.tier);
     let cases = ctx.tier.pick(30_000u64, 600_000u64);
     reports.push(tape_suite(ctx, "random_pictures", cases, 6144, &move |g| random_case(g, &cfg)));
+    let scfg = PicCfg { max_dim: 96, max_fixed_mbs: 99, budget: 500, ..cfg_for(ctx.tier) };
+    reports.push(tape_suite(ctx, "size_changing_sequences", ctx.tier.pick(20_000u64, 400_000u64), 6144, &move |g| sequence_case(g, &scfg)));
     let mut extra = Map::new();
     extra.insert("grid".into(), json!(format!("every (w,h) in 1..={} x 1..={}, I and P picture each, quantizers cycling 1..31", gw, gh)));
     finish(
         ctx,
         reports,
         Summary {
-            rule: "Decode an I and a P picture for every width x height in the box (Sorenson custom sizes, both versions, quantizers cycling through 1..31), the fixed formats of both modes, and tape-generated pictures up to 640x480; after each successful decode check the plane-size relations (luma w*h, chroma ceil(w/2)*ceil(h/2), row length ceil(w/2)) and run the player pipeline: deblock each plane with QUANT_TO_STRENGTH[quantizer], convert with yuv420_to_rgba (whose documented preconditions are debug-asserted in this build). Oracle: no panic, plane lengths preserved, exactly w*h RGBA pixels. Non-trivial = a dimension that is not a multiple of 16 or is below 10.",
+            rule: "Decode an I and a P picture for every width x height in the box (Sorenson custom sizes, both versions, quantizers cycling through 1..31), the fixed formats of both modes, tape-generated pictures up to 640x480, and tape-generated sequences on one decoder whose size changes at intra pictures (transposed, same area in another shape, drawn afresh) with predicted / disposable pictures in between; after each successful decode check the plane-size relations (luma w*h, chroma ceil(w/2)*ceil(h/2), row length ceil(w/2)) and run the player pipeline: deblock each plane with QUANT_TO_STRENGTH[quantizer], convert with yuv420_to_rgba (whose documented preconditions are debug-asserted in this build). Oracle: no panic, plane lengths preserved, exactly w*h RGBA pixels. Non-trivial = a dimension that is not a multiple of 16 or is below 10.",
             assumptions: vec!["debug assertions of the post-processors are compiled in (harness profile)".into()],
             exhaustive: false,
             extra,
@@ -302,6 +407,11 @@ pub fn replay(suite: &str, case: &Value) -> Option<Verdict> {
         "random_pictures" => {
             let tier = if case["tier"].as_str() == Some("thorough") { Tier::Thorough } else { Tier::Quick };
             Some(random_case(&mut Gen::new(&super::tape_of(case)?), &cfg_for(tier)))
+        }
+        "size_changing_sequences" => {
+            let tier = if case["tier"].as_str() == Some("thorough") { Tier::Thorough } else { Tier::Quick };
+            let scfg = PicCfg { max_dim: 96, max_fixed_mbs: 99, budget: 500, ..cfg_for(tier) };
+            Some(sequence_case(&mut Gen::new(&super::tape_of(case)?), &scfg))
         }
         "standard_custom_size_grid" | "size_grid" if case["std_custom"] == true => {
             let w = case["w"].as_u64()? / 4;
